@@ -815,7 +815,11 @@ class Elab:
             else:
                 di = i - (len(params) - nd)
                 if di >= 0:
-                    frame[p.arg] = self.eval(defaults[di], frame)
+                    # Python evaluates a default once, when the function is defined: a mutable default is ONE object for the whole process
+                    dc = self.__dict__.setdefault('default_cache', {})
+                    if (id(fn), di) not in dc:
+                        dc[(id(fn), di)] = self.eval(defaults[di], frame)
+                    frame[p.arg] = dc[(id(fn), di)]
                 else:
                     raise PyExc('TypeError', '%s() missing argument %s' % (fn.name, p.arg))
         for k in kwargs:
